@@ -26,7 +26,10 @@ def plan(tier, seed):
                        datetime.date(2024, 1, 1), *[ds[int(i)] for i in r.choice(len(ds), 4, replace=False)]})
     else:
         pick = ds
-    return [dict(date=str(d), k=k, seed=seed) for d in pick for k in range(8 if tier == "quick" else 16)]
+    items = [dict(date=str(d), k=k, seed=seed) for d in pick for k in range(8 if tier == "quick" else 16)]
+    # the quantifier names "up to ten children": families with 0..10 children along a wage grid
+    items += [dict(date=str(d), k=100, seed=seed, children_sweep=True) for d in pick]
+    return items
 
 
 def _get(p, *path, default=None):
@@ -47,8 +50,52 @@ def run_item(item):
     rng = rng_for(item["seed"], PROPERTY, d.toordinal(), item["k"])
     params, functions = env.environment(d)
     corner = CORNERS[item["k"] % 4]
-    df = popgen.population(rng, d, n_hh=int(rng.integers(6, 14)), params=params, corner=corner)
-    df = popgen.branch_reach(rng, df, d, params)
+    if item.get("children_sweep"):
+        import pandas as pd
+
+        corner = "children_sweep"
+        parts = []
+        wages = [0.0, 300.0, 521.0, 700.0, 1000.0, 1500.0, 1999.0, 2000.0, 2001.0, 3000.0, 5000.0, 9000.0]
+        for kids in range(0, 11):
+            rows = [dict(p_id=0, hh_id=0, alter=40, p_id_einstandspartner=1, p_id_ehepartner=1),
+                    dict(p_id=1, hh_id=0, alter=38, p_id_einstandspartner=0, p_id_ehepartner=0)]
+            for c in range(kids):
+                rows.append(dict(p_id=2 + c, hh_id=0, alter=int(1 + (2 * c) % 17), kind=True, p_id_elternteil_1=0, p_id_elternteil_2=1,
+                                 p_id_kindergeld_empf=0))
+            base = popgen.population(rng, d, n_hh=1, params=params, archetypes=["single"]).iloc[:1]
+            fam = pd.concat([base] * len(rows), ignore_index=True)
+            for col in fam.columns:
+                if fam[col].dtype.kind == "f":
+                    fam[col] = 0.0
+                elif fam[col].dtype.kind == "b":
+                    fam[col] = False
+            for pc in popgen.POINTERS:
+                fam[pc] = -1
+            for i, r_ in enumerate(rows):
+                for k_, v_ in r_.items():
+                    fam.at[i, k_] = v_
+            fam["geburtsjahr"] = d.year - fam["alter"]
+            fam["jahr_renteneintr"] = fam["geburtsjahr"] + 67
+            fam["in_ausbildung"] = fam["kind"] & (fam["alter"] >= 6)
+            fam["gemeinsam_veranlagt"] = ~fam["kind"]
+            fam["ges_pflegev_hat_kinder"] = (~fam["kind"]) & (kids > 0)
+            fam["bruttokaltmiete_m_hh"] = 900.0
+            fam["wohnfläche_hh"] = 110.0
+            fam["mietstufe"] = 3
+            fam["steuerklasse"] = np.where(fam["kind"], 1, 4)
+            fam["arbeitsstunden_w"] = np.where(fam["kind"], 0.0, 38.0)
+            fam["bruttolohn_m"] = np.where(fam["p_id"] == 1, 1200.0, 0.0)
+            parts.append(popgen.replicate_with_wages(fam, wages, who=0))
+        n_p = max(int(p["p_id"].max()) for p in parts) + 1
+        n_h = max(int(p["hh_id"].max()) for p in parts) + 1
+        for i, part in enumerate(parts):
+            parts[i] = popgen.relabel(part, {int(p): int(p) + i * n_p for p in part["p_id"]}, {int(h): int(h) + i * n_h for h in part["hh_id"].unique()})
+        df = pd.concat(parts, ignore_index=True)
+        for col in parts[0].columns:
+            df[col] = df[col].astype(parts[0][col].dtype)
+    else:
+        df = popgen.population(rng, d, n_hh=int(rng.integers(6, 14)), params=params, corner=corner)
+        df = popgen.branch_reach(rng, df, d, params)
     if item["k"] % 3 == 2:
         df["alter"] = np.where(rng.random(len(df)) < 0.15, rng.choice([0, 1, 17, 18, 24, 25, 64, 65, 66, 67, 99, 100], len(df)), df["alter"])
         df["geburtsjahr"] = d.year - df["alter"]
